@@ -270,11 +270,11 @@ func c19Ipc(args []string) string {
 		return "!gather " + err.Error()
 	}
 	short := map[string]string{
-		"snowflake_rounded_proxy_poll_total":                                "pp",
-		"snowflake_rounded_client_poll_total":                               "cp",
-		"snowflake_rounded_proxy_poll_with_relay_url_extension_total":       "wr",
-		"snowflake_rounded_proxy_poll_without_relay_url_extension_total":    "wo",
-		"snowflake_rounded_proxy_poll_rejected_relay_url_extension_total":   "rj",
+		"snowflake_rounded_proxy_poll_total":                              "pp",
+		"snowflake_rounded_client_poll_total":                             "cp",
+		"snowflake_rounded_proxy_poll_with_relay_url_extension_total":     "wr",
+		"snowflake_rounded_proxy_poll_without_relay_url_extension_total":  "wo",
+		"snowflake_rounded_proxy_poll_rejected_relay_url_extension_total": "rj",
 	}
 	var prom, ptotal []string
 	for _, fam := range fams {
